@@ -283,6 +283,11 @@ fn load_known(path: &str) -> Known {
 
 fn run_property(o: &Opts, out: &mut dyn Write) -> i32 {
     let t0 = std::time::Instant::now();
+    if let Ok(c) = std::env::var("VERIF_CAP") {
+        if let Ok(n) = c.parse::<usize>() {
+            MISMATCH_CAP.store(n, std::sync::atomic::Ordering::Relaxed);
+        }
+    }
     let mut rng = Rng::new(o.seed ^ 0xC0FFEE);
     let prop = o.prop.as_str();
     let mut total = Stats::default();
